@@ -68,6 +68,9 @@ func (r *scriptedRand) Uint32() uint32                        { return 4 }
 func (r *scriptedRand) Uint64() uint64                        { return 4 }
 func (r *scriptedRand) GenerateString(n int, _ string) string { return "xxxxxxxxxxxxxxxx"[:n%16] }
 
+// c20Known is set by the test: it reports (and counts) a recorded known finding.
+var c20Known func(sig string) bool
+
 type liveRes struct {
 	kind string
 	port int
@@ -221,14 +224,28 @@ func runC20Inner(c *C20Case) (string, string) { //nolint:cyclop,gocyclo,maintidx
 		if res.sock != nil && (res.sock.IsClosed() || res.sock.ID <= 0) || res.lis != nil && res.lis.IsClosed() {
 			return "returned-closed", ctx + ": returned a closed socket/listener"
 		}
+		shared := false
 		for _, l := range live {
 			if l.kind == res.kind && l.port == res.port {
+				if res.lis != nil && res.lis.Reuse && l.lis != nil && l.lis.Reuse {
+					// the bundled generators bind TCP relay listeners with SO_REUSEPORT, and the
+					// kernel lets two such listeners share a port (known finding, see DESIGN.md)
+					if c20Known != nil && c20Known("C20.tcp-listener-port-shared-reuseport") {
+						shared = true // recorded known finding: counted, and the history goes on
+
+						break
+					}
+
+					return "tcp-listener-port-shared-reuseport", fmt.Sprintf("%s: TCP relay listener on port %d handed out while another live listener holds that port (both bound with SO_REUSEPORT)", ctx, res.port)
+				}
+
 				return "port-shared", fmt.Sprintf("%s: port %d handed out while another live result holds it", ctx, res.port)
 			}
 			if (l.sock != nil && l.sock == res.sock) || (l.lis != nil && l.lis == res.lis) {
 				return "not-fresh", ctx + ": the same socket was handed out twice"
 			}
 		}
+		_ = shared
 		for _, p := range c.Pre {
 			if p == res.port {
 				return "port-in-use", fmt.Sprintf("%s: handed out port %d which is in use", ctx, p)
@@ -286,6 +303,7 @@ func c20NonTrivial(c *C20Case) bool {
 }
 
 func c20Do(r *vkit.Run, c *C20Case, sample string) (string, string) {
+	c20Known = r.IsKnown
 	r.Eval(1)
 	r.Label("gen:" + c.Gen)
 	if c20NonTrivial(c) {
